@@ -12,7 +12,7 @@ def run_crosshair(relpath, per_condition_timeout=60, total_timeout=600):
     path = os.path.join(ROOT, relpath)
     exe = os.path.join(sys.prefix, "bin", "crosshair")
     env = dict(os.environ)
-    env["PYTHONPATH"] = ROOT + os.pathsep + "/repo" + os.pathsep + env.get("PYTHONPATH", "")
+    env["PYTHONPATH"] = ROOT + os.pathsep + (os.environ.get("VERIF_REPO") or "/repo") + os.pathsep + env.get("PYTHONPATH", "")
     cmd = [exe, "check", "--report_all", "--per_condition_timeout", str(per_condition_timeout), path]
     try:
         p = subprocess.run(cmd, capture_output=True, text=True, timeout=total_timeout, env=env, cwd=ROOT)
